@@ -57,7 +57,7 @@ def run(ctx):
     impls.append(('minicbor::data::Int', FULL, int_value))
     impls.append(('char', ty_range('char'), None))
     for ty, rng, vf in impls:
-        path = "<%s as minicbor::decode::Decode<'b, C>>::decode" % ty
+        path = "<%s as minicbor::decode::Decode<'_, C>>::decode" % ty
         try:
             n += intdec.check_int_accessor(ctx, 'T-DEC.impl', 'Decode for ' + ty, prog, path, rng, value_of=vf)
             roots += 1
